@@ -39,6 +39,16 @@ CHECKS["C09"] = ("Mount.tla, Hosts.tla",
     "Trusted: TLC, environ/scope construction in harness/servers.py, ASCII concretisation of prefix symbols.",
     "DESIGN.md 5 C09")
 
+CHECKS["C08"] = ("Routing.tla",
+    "TLC model check of the statement's languages and split-existence matching at character level over (route table x "
+    "path) cases (FirstMatching, SplitsSound); every behaviour replayed on real Routers on WSGI and ASGI; convertor "
+    "round trips on every accepted parameter text",
+    "22 route patterns (every convertor type, literal dots/dashes, adjacent placeholders, ambiguous splits) in all "
+    "orders of 1-2 (thorough: 3) routes x all short paths over a 5-character alphabet plus a library of dates, uuids, "
+    "newlines and unicode digits. Where several splits are valid the real parameters must be one of them.",
+    "Trusted: TLC, servers.py, the reference conversion int/Decimal/UUID/date in the adapter.",
+    "DESIGN.md 5 C08")
+
 NOT_YET = {}
 
 ALL = ["C%02d" % i for i in range(1, 21)]
